@@ -105,6 +105,6 @@ Definition c_model (c : ccase) : inst :=
 
 Definition c_mismatch (c : ccase) : bool := negb (inst_eqb (c_model c) (cc_obs c)).
 
-(* the model predicts that the pickle round trip is not state-preserving (F7 and lost extras) *)
+(* the model predicts that the pickle round trip is not state-preserving (undeclared attributes are lost) *)
 Definition c_predicted_lossy (c : ccase) : bool :=
   match cc_kind c with KPickle => negb (pickle_safe (cc_cls c) (cc_x c)) | _ => false end.
